@@ -39,6 +39,10 @@ def pwd_bytes(rng, n):
 _CASELESS_POOL = None
 
 
+#: lower-case already (str.lower is the identity) but changed by casefold / NFKC / upper().lower()
+LOWER_STABLE = [c for c in "ß\ufb01\ufb02\u017f\u0149\u01f0\u0390\u03b0\u0587\u1e96\u1e9e\u00aa\u00ba\u00b5\u03c2" if c.lower() == c]
+
+
 def _caseless_pool():
     """non-ASCII characters on which str.upper / str.lower / NFKC are the identity (so that the ASCII case mapping of the
     specification is the whole case mapping), from every UTF-8 length class"""
@@ -633,6 +637,10 @@ def gen_cases(ctx, only=None):
         for k, n in enumerate(lens):
             t = pwd_text(rng, n, caseless=False)
             u = pwd_text(rng, [1, 5, 13, 20, 64, 0][k % 6], caseless=True)
+            if k % 2:
+                # the user name is lower-cased, nothing more: characters that are already lower case but are rewritten by stronger
+                # foldings (casefold: ß -> ss, ﬁ -> fi, ſ -> s; NFKC: ﬁ, ª) must reach the digest unchanged
+                u = "".join(c + rng.choice(LOWER_STABLE) for c in u[:32]) or rng.choice(LOWER_STABLE)
             sec = t if k % 2 else t.encode("utf-8")
             usr = u if k % 3 else u.encode("utf-8")
             yield Case(name, f"sfmt {name} {hs(t)} {hs(u)}", lambda h=h, sec=sec, usr=usr: h.hash(sec, user=usr), lambda s: s, {"fmt": name, "text": t, "user": u})
